@@ -15,11 +15,11 @@ C09, C10), not from the code.  Two views of the binary format:
 writer options.  Sequence folds are range folds with explicit indices so that
 loop invariants need no induction (DESIGN 3.2).
 """
-from pyvc.dsl import spec, opaque, dset, seq_items
+from pyvc.dsl import spec, opaque, dset, seq_items, set_add
 from pyvc.contracts import implies
 from spec.core import (zigzag, varint, long_bytes, utf8, utf8_valid, utf8_decode, double_bytes,
                        float_bytes, num_to_float, le_bytes4, le_bytes8, f_of_single,
-                       float_from_bits, float_bits, FLOATED, LONG_MIN, LONG_MAX, INT_MIN, INT_MAX)
+                       float_from_bits, float_bits, FLOATED, LONG_MIN, LONG_MAX, INT_MIN, INT_MAX, set_inter)
 
 
 # ------------------------------------------------------------------- schemas
@@ -47,6 +47,8 @@ def WF(s: object, ns: dict) -> bool:
     """well-formed parsed schema without logical types (one level per unfolding;
     nested parts by the same predicate).  A.1 of DESIGN."""
     t = TYPE(s)
+    if not NS_CLEAN(ns):
+        return False
     if isinstance(s, dict) and ("type" not in s or "logicalType" in s):
         return False
     if t == "null" or t == "boolean" or t == "int" or t == "long" or t == "float" \
@@ -78,6 +80,16 @@ def WF(s: object, ns: dict) -> bool:
 def HAS_NAME(s: dict) -> bool:
     """named types carry their (full) name"""
     return "name" in s and isinstance(s["name"], str)
+
+
+@spec
+def NS_CLEAN(ns: dict) -> bool:
+    """no Avro type keyword is used as the name of a named type ("primitive type names ... may not be
+    defined in any namespace"; fastavro's parser does not reject such names, its writers misbehave on them)"""
+    return not ("null" in ns or "boolean" in ns or "int" in ns or "long" in ns or "float" in ns or "double" in ns
+                or "bytes" in ns or "string" in ns or "fixed" in ns or "enum" in ns or "record" in ns
+                or "error" in ns or "array" in ns or "map" in ns or "union" in ns or "request" in ns
+                or "error_union" in ns)
 
 
 @spec
@@ -223,11 +235,14 @@ def HINTED(u: list, name: object, k: int) -> int:
 
 @spec
 def UNION_CONFORMS(d: object, u: list, ns: dict, o: dict) -> bool:
-    """a (name, value) tuple is a hint (unless tuple notation is disabled): it must name a
-    branch, and the value must conform to the first branch of that name"""
+    """what the union writer accepts: a (name, value) tuple is a hint (unless tuple notation is
+    disabled) -- it must name a branch and the value must conform to the first branch of that name;
+    otherwise a branch must be selected by the rule of C09 (SEL; selection uses validation, VALID)
+    and the datum must conform to it"""
     if isinstance(d, tuple) and not o.get("disable_tuple_notation"):
-        return len(d) == 2 and HINTED(u, d[0], 0) >= 0 and CONFORMS(d[1], u[HINTED(u, d[0], 0)], ns, o)
-    return ANY_BRANCH(d, u, ns, o, 0)
+        return len(d) == 2 and HINTED(u, d[0], 0) >= 0 and HINTED(u, d[0], 0) < len(u) \
+            and CONFORMS(d[1], u[HINTED(u, d[0], 0)], ns, o)
+    return SEL(u, ns, d, o) >= 0 and SEL(u, ns, d, o) < len(u) and CONFORMS(d, u[SEL(u, ns, d, o)], ns, o)
 
 
 @spec
@@ -356,18 +371,92 @@ def ANY_VALID(d: object, u: list, ns: dict, o: dict, k: int) -> bool:
 
 
 # ------------------------------------------------------ the spec's own encoder
-@opaque
+@spec
+def BDEF(b: object, ns: dict) -> object:
+    """a union branch with a by-name reference followed (what the writer looks at)"""
+    if TYPE(b) in ns:
+        return ns[TYPE(b)]
+    return b
+
+
+@spec
+def IS_REC(b: object, ns: dict) -> bool:
+    """the branch is a record, inline or by name"""
+    return TYPE(BDEF(b, ns)) == "record"
+
+
+@spec
+def FIRST_NONREC(u: list, ns: dict, d: object, o: dict, k: int) -> int:
+    """C09: 'among conforming non-record branches the first in schema order' -- its index at or after k, -1 if none"""
+    if k >= len(u):
+        return -1
+    if (not IS_REC(u[k], ns)) and VALID(d, u[k], ns, o):
+        return k
+    return FIRST_NONREC(u, ns, d, o, k + 1)
+
+
+@spec
+def NEXT_DOUBLE(u: list, k: int) -> int:
+    """index of the first 'double' branch at or after k, -1 if none"""
+    if k >= len(u):
+        return -1
+    if TYPE(u[k]) == "double":
+        return k
+    return NEXT_DOUBLE(u, k + 1)
+
+
+@spec
+def DEFER_DOUBLE(u: list, ns: dict, i: int) -> int:
+    """C09: 'a value conforming to float goes to a later double branch when there is one'"""
+    if TYPE(BDEF(u[i], ns)) == "float" and NEXT_DOUBLE(u, i + 1) >= 0:
+        return NEXT_DOUBLE(u, i + 1)
+    return i
+
+
+@spec
+def NAMESET(fs: list, hi: int) -> set:
+    """the set of the names of the fields fs[:hi]"""
+    if hi <= 0:
+        return set()
+    return set_add(NAMESET(fs, hi - 1), fs[hi - 1]["name"])
+
+
+@spec
+def SHARED(b: object, ns: dict, d: object) -> int:
+    """how many field names record branch b shares with the datum's keys"""
+    return len(set_inter(NAMESET(BDEF(b, ns)["fields"], len(BDEF(b, ns)["fields"])), set(d)))
+
+
+@spec
+def BEST_REC(u: list, ns: dict, d: object, o: dict, k: int, best: int, most: int) -> int:
+    """C09: 'among conforming record branches the one sharing most field names with the datum, first on
+    ties': scanning from k with the best so far (index `best` sharing `most` names)"""
+    if k >= len(u):
+        return best
+    if IS_REC(u[k], ns) and VALID(d, u[k], ns, o) and SHARED(u[k], ns, d) > most:
+        return BEST_REC(u, ns, d, o, k + 1, k, SHARED(u[k], ns, d))
+    return BEST_REC(u, ns, d, o, k + 1, best, most)
+
+
+@spec
 def SEL(u: list, ns: dict, d: object, o: dict) -> int:
-    """union branch selection (C09); defined executably in spec/union.py, opaque here"""
-    from spec.union import select
-    return select(u, ns, d, o)
+    """union branch selection (C09), from the statement: a (name, value) tuple selects exactly the named
+    branch; otherwise the first conforming non-record branch (float deferring to a later double), and only
+    when there is none the conforming record branch sharing most field names, first on ties.  -1: none.
+    (spec/union.py holds an independent executable version used by the bounded stand-in.)"""
+    if isinstance(d, tuple) and not o.get("disable_tuple_notation"):
+        return HINTED(u, d[0], 0)
+    if FIRST_NONREC(u, ns, d, o, 0) >= 0:
+        return DEFER_DOUBLE(u, ns, FIRST_NONREC(u, ns, d, o, 0))
+    return BEST_REC(u, ns, d, o, 0, -1, -1)
 
 
-@opaque
+@spec
 def STRIP(u: list, ns: dict, d: object, o: dict) -> object:
     """the datum with a (name, value) tuple hint removed"""
-    from spec.union import strip_hint
-    return strip_hint(d, o)
+    if isinstance(d, tuple) and not o.get("disable_tuple_notation"):
+        return d[1]
+    return d
 
 
 @spec
